@@ -2110,10 +2110,13 @@ def disk_io_counters(perdisk=False, nowrap=True):
     """
     kwargs = dict(perdisk=perdisk) if LINUX else {}
     rawdict = _psplatform.disk_io_counters(**kwargs)
+    if nowrap:
+        # also with no disks at all, so that the disks seen by the
+        # previous call are forgotten (they start afresh if they
+        # show up again)
+        rawdict = _wrap_numbers(rawdict, 'psutil.disk_io_counters')
     if not rawdict:
         return {} if perdisk else None
-    if nowrap:
-        rawdict = _wrap_numbers(rawdict, 'psutil.disk_io_counters')
     nt = getattr(_psplatform, "sdiskio", _common.sdiskio)
     if perdisk:
         for disk, fields in rawdict.items():
@@ -2161,10 +2164,13 @@ def net_io_counters(pernic=False, nowrap=True):
     cache.
     """
     rawdict = _psplatform.net_io_counters()
+    if nowrap:
+        # also with no NICs at all, so that the NICs seen by the
+        # previous call are forgotten (they start afresh if they
+        # show up again)
+        rawdict = _wrap_numbers(rawdict, 'psutil.net_io_counters')
     if not rawdict:
         return {} if pernic else None
-    if nowrap:
-        rawdict = _wrap_numbers(rawdict, 'psutil.net_io_counters')
     if pernic:
         for nic, fields in rawdict.items():
             rawdict[nic] = _common.snetio(*fields)
